@@ -46,6 +46,8 @@ def param_names(names, snake, scalars_cfg, rc=None):
     out = {}
     for n in names:
         p = scen.param_name(n, snake)
+        if not p.isidentifier():          # snake-casing can expose a leading digit: _1 -> 1 -> _1 (/repo 70630f0)
+            p = "_" + p
         while p in used:
             p += "_"
         used.add(p)
@@ -347,23 +349,7 @@ def run(ctx):
             feats = "+".join(g.sc.features) or "default"
             run.dist("scenarios", feats)
             if not g.ok:
-                # C04's subject in general; but when the MODEL predicts a parameter that is no identifier
-                # (names_ok = false) the failed generation is the listed C03 class
-                try:
-                    cfg0 = g.sc.config
-                    ssx0 = argenc.schema_sx(g.schema, cfg0.get("scalars") or {})
-                    rs = model.batch(ENGINE, [[Sym("gen"), bool(cfg0.get("convert_to_snake_case", True)), result_class(op),
-                                               ssx0, argenc.vardefs_sx(g.schema, op)] for op in g.operations()])
-                    bad = [op.name.value for op, r in zip(g.operations(), rs) if isinstance(r, list) and r[0] == "ok" and r[2] == "f"]
-                except Exception:  # noqa  (schema itself not loadable: not ours)
-                    bad = []
-                if bad:
-                    run.finding("F18-variable-name-not-identifier",
-                                f"generation fails for operation(s) {bad}: {g.res.get('exc')}",
-                                {"schema": g.sc.sdl, "queries": g.sc.queries, "config": g.sc.config, "exc": g.res.get("exc")})
-                    run.dist("skipped", "generation-failed:predicted-by-model(sig_ok=false):" + feats)
-                else:
-                    run.dist("skipped", "generation-failed:" + feats)
+                run.dist("skipped", "generation-failed:" + feats)      # C04's subject
                 continue
             cfg = g.res["config"]
             snake = cfg.get("convert_to_snake_case", True)
@@ -546,14 +532,14 @@ def check_scenario(ctx, g, plan, rows, genres, stats):
             continue
         # ---- K3 + behavioural K1 per call
         for c in cases:
-            check_call(ctx, g, op, vds, c, names_ok, inputs_ok, f10_bad, stats, f21_ok, ser_names_ok)
+            check_call(ctx, g, op, vds, c, True, inputs_ok, f10_bad, stats, f21_ok, ser_names_ok)
     if not ld.get("ok"):
         msg = json.dumps(ld.get("modules"))[:400]
         client_err = (ld.get("modules") or {}).get("client", "ok") != "ok" or "client" in msg
         if any_sig_bad:
             op0 = plan[0][0] if plan else None
-            run.finding("F18-variable-name-not-identifier", f"generated client does not import: {msg}",
-                        replay_of(g, op0, load=ld.get("modules")) if op0 else {"load": ld.get("modules")})
+            run.violation(f"generated client does not import (model predicts an invalid signature): {msg}",
+                          replay_of(g, op0, load=ld.get("modules")) if op0 else {"load": ld.get("modules")})
             run.dist("load", "import-failed:predicted-by-model(sig_ok=false)")
         else:
             run.dist("skipped", "import-failed-other-module:" + feats)   # C04 / C18's subject
@@ -580,8 +566,6 @@ def classify(names_ok, inputs_ok, f10_bad, involved, f21=False):
         return "F10-serialize-on-whole-argument"
     if involved is None and f10_bad:
         return "F10-serialize-on-whole-argument"
-    if not inputs_ok:
-        return "F18-input-field-collision"
     return None
 
 
@@ -614,8 +598,9 @@ def check_call(ctx, g, op, vds, c, names_ok, inputs_ok, f10_bad, stats, f21_ok=T
             run.dist("k1_suppressed", "count")
             return
         cls = classify(names_ok, inputs_ok, f10_bad, involved, f21=(not f21_ok) and model_agrees)
-        if not ser_names_ok:
-            cls = "F33-serialize-function-named-like-local"
+        # (F33, F18-variable-name-not-identifier and F18-input-field-collision are fixed: no routing)
+        if not inputs_ok:
+            cls = "F18-colliding-input-fields-by-name"     # residual of bec4417: populate_by_name ambiguity
         rep = replay_of(g, op, c)
         if cls:
             run.finding(cls, what, rep)
@@ -689,6 +674,11 @@ def check_call(ctx, g, op, vds, c, names_ok, inputs_ok, f10_bad, stats, f21_ok=T
             run.sample({"operation": op.name.value, "arguments": {n: ("<omitted>" if v is OMIT else v.enc) for n, v in c.vals.items()},
                         "sent_variables": sent_vars, "server_receives": (r.get("sent") or {}).get("coerced")})
     # ---------- behavioural K1: model outcome vs captured request; model intended vs reference
+    if not inputs_ok:
+        # scope of the model: input types whose fields mangle to distinct names (the real code renames colliding
+        # fields since /repo bec4417, the model does not represent that): K3 above is the whole check here
+        run.dist("k1_scope", "input-field-collision:K3-only")
+        return
     if isinstance(m_out, list) and m_out[0] == "sent":
         mv = sx_json(m_out[1])
         if not was_sent or not same_value(mv, sent_vars or {}):
